@@ -1,6 +1,6 @@
 (** C15 - the reported availability figures are truthful and account for every piece.  Statements only. *)
 From TB Require Import Base Decimal BencodeModel TorrentModel TorrentProofs PathModel FsModel SolverModel FinderModel RunModel
-                       SolverProofs RunProofs FsProofs FaultProofs PreludeProofs TableProofs Generated GeneratedObligations.
+                       SolverProofs RunProofs FsProofs FaultProofs PreludeProofs TableProofs Generated GeneratedObligations SystemModel SystemProofs GlueProofs EstablishProofs RunExample.
 Local Open Scope N_scope.
 
 (** After any list of piece outcomes (none of which is a panic - C16), succeeded + failed + faulted
@@ -24,6 +24,32 @@ Theorem C15_success_only_via_good_trace content pc pg : good content pc pg -> fo
   end.
 Proof. exact (walk_good content pc pg). Qed.
 
+(** "Every piece counted as succeeded verifies in the export tree afterwards": in every fault-free
+    run of the system (any interleaving of the workers; reads answered by the shared file system),
+    when the evaluation of a piece has returned [Success], every non-padding segment of the piece
+    is in place - its export file holds the torrent's bytes of the segment at the segment's offset,
+    whether this evaluation wrote them or found them there ... *)
+Theorem C15_success_means_in_place H content es s s' i pc :
+  table_functional content es -> alias_free content es (s_fs s) -> Forall (pgood content es) (s_pool s) ->
+  wf_piece content pc -> Forall (fun sg => In (ps_entry sg) es) (w_segs pc) -> cr H content pc ->
+  nth_error (s_pool s) i = Some (solve_prog H pc) -> freach s s' -> nth_error (s_pool s') i = Some (Ret Success) ->
+  forall sg, In sg (w_segs pc) -> e_pad (ps_entry sg) = false -> holds_seg content (s_fs s') sg.
+Proof. exact (fun Hfun => success_means_in_place H content es Hfun s s' i pc). Qed.
+
+(** ... and stays in place in every later state, fault-free or not (C04: never damaged again). *)
+Theorem C15_in_place_forever content es s s' pc sg :
+  table_functional content es -> alias_free content es (s_fs s) -> Forall (pgood content es) (s_pool s) -> sreach s s' ->
+  wf_piece content pc -> Forall (fun x => In (ps_entry x) es) (w_segs pc) -> In sg (w_segs pc) -> e_pad (ps_entry sg) = false ->
+  holds_seg content (s_fs s) sg -> holds_seg content (s_fs s') sg.
+Proof. exact (fun Hfun => in_place_forever content es Hfun s s' pc sg). Qed.
+
+(** Non-vacuity: a fault-free run of the example of C01 that ends with the piece returned as [Success]. *)
+Example C15_fault_free_run_exists :
+  exists s, freach {| s_fs := ex_f0; s_pool := ex_pool |} s /\ nth_error (s_pool s) 0 = Some (Ret Success).
+Proof. exact ex_freach. Qed.
+
 Print Assumptions C15_counters_sum.
 Print Assumptions C15_one_line_per_piece.
 Print Assumptions C15_success_only_via_good_trace.
+Print Assumptions C15_success_means_in_place.
+Print Assumptions C15_in_place_forever.
